@@ -351,7 +351,7 @@ def warm(prop, tier):
         return
     e = env.child_env({'NUMBA_NUM_THREADS': '16'})
     full = tier == 'thorough' and prop in ('C01', 'C11', 'C16', 'C09', 'C02', 'C08')
-    marker = os.path.join(e['NUMBA_CACHE_DIR'], 'warm2-%s-%s' % (kinds_.replace(',', '_'), 'full' if full else 'quick'))
+    marker = os.path.join(e['NUMBA_CACHE_DIR'], 'warm3-%s-%s' % (kinds_.replace(',', '_'), 'full' if full else 'quick'))
     if os.path.exists(marker):
         return
     t0 = time.time()
